@@ -34,6 +34,10 @@ pub struct Mix {
     pub groups: u32,
     pub users: u32,
     pub connect: u32,
+    #[serde(default)]
+    pub job_heartbeat: u32,
+    #[serde(default)]
+    pub job_clean_tokens: u32,
 }
 
 #[derive(Clone, Debug, Serialize, Deserialize)]
@@ -229,7 +233,7 @@ impl Gen {
         let m = self.cfg.mix.clone();
         let weights = [
             m.send, m.poll, m.flush, m.job_save, m.job_maintain, m.restart_clean, m.restart_flush_kill, m.restart_lose_index, m.purge, m.tick, m.jump, m.back_jump, m.store_offset, m.get_offset,
-            m.delete_offset, m.audit, m.get_topic, m.partitions, m.update_topic, m.catalogue, m.groups, m.users, m.connect,
+            m.delete_offset, m.audit, m.get_topic, m.partitions, m.update_topic, m.catalogue, m.groups, m.users, m.connect, m.job_heartbeat, m.job_clean_tokens,
         ];
         let choice = self.rng.pick_weighted(&weights);
         let c = self.rng.usize_below(self.cfg.clients);
@@ -378,6 +382,8 @@ impl Gen {
                     Op::Connect { c }
                 }
             }
+            (23, _) => Op::RunJob(Job::VerifyHeartbeats),
+            (24, _) => Op::RunJob(Job::CleanTokens),
             _ => Op::Tick(1 + self.rng.below(100)),
         }
     }
